@@ -34,7 +34,7 @@ def main():
     p = os.path.join(ROOT, "DESIGN.md")
     s = open(p).read()
     a = s.index("## D. Seeded changes")
-    b = s.index("## 0. Reader's summary")
+    b = s.index("## E. Limits as built") if "## E. Limits as built" in s else s.index("## 0. Reader's summary")
     open(p, "w").write(s[:a] + sec + s[b:])
     print(f"{ncaught}/{total} caught")
 
